@@ -226,6 +226,20 @@ def inverse_pairs(m, run, maps):
 
 # ---------------------------------------------------------------------------------------------- WS3 setters
 def setters(m, run):
+    # the three views are driven through the real accessors of the rational classes on exact symbolic data (WS5); the rules that read the
+    # spelling of the setters (argument roles at the combiner, the store on every path, the order of the sizes) corroborate
+    from .. import skel_drivers as _sd
+    n0 = len(run.obs)
+    try:
+        _sd.ws5(m, run)
+    except AnalysisError as ex:
+        run.error(str(ex))
+    ok = len(run.obs) > n0 and all(o.ok for o in run.obs[n0:])
+    with run.corroborating(ok, 'WS5', rules=('WS3.setter-roles', 'WS4.setter-always-stores')):
+        _setters_syntactic(m, run)
+
+
+def _setters_syntactic(m, run):
     n = 0
     funcs = []
     for cname in ('Curve', 'Surface', 'Volume'):
